@@ -22,7 +22,7 @@ func C07(p *load.Program, run *report.Run) {
 // C06rounding is the rounding-discipline clause.
 func C06rounding(p *load.Program, run *report.Run) {
 	run.Rule("rounding-discipline", "every division/shift of a count is a ceil idiom, a checked exact division, a quotient/remainder pair, or has its remainder handled")
-	lints.Rounding(p, run, []string{"ot", "gmw"}, map[string]bool{"ot/iknp.go": true, "ot/cot.go": true, "ot/rot.go": true, "ot/mitccrh.go": true, "gmw/triples.go": true, "gmw/bitvec.go": true},
+	lints.Rounding(p, run, []string{"ot", "gmw"}, nil,
 		map[string]string{})
 	run.Floor("division-sites", 15)
 }
@@ -31,7 +31,7 @@ func C06rounding(p *load.Program, run *report.Run) {
 func C14lints(p *load.Program, run *report.Run) {
 	run.Rule("short-read", "a Read whose count is discarded must be io.ReadFull (bytes.Reader reads accepted after a length check)")
 	run.Rule("unbounded-index-store", "an index store with an unbounded loop counter needs a preceding bound check")
-	files := map[string]bool{"circuit/parser.go": true}
+	var files map[string]bool
 	lints.ShortRead(p, run, []string{"circuit"}, files)
 	lints.UnboundedIndexStore(p, run, []string{"circuit"}, files)
 	run.Rule("decoder-divisor-guard", "in the circuit-file parsers and the functions of the package they call, a division by a decoded (non-constant) integer is dominated by a test that it is not zero")
@@ -44,7 +44,7 @@ func C14lints(p *load.Program, run *report.Run) {
 // C18lints are the decoder discipline rules.
 func C18lints(p *load.Program, run *report.Run) {
 	run.Rule("short-read", "a Read whose count is discarded must be io.ReadFull (bytes.Reader reads accepted after a length check)")
-	lints.ShortRead(p, run, []string{"sha2pc"}, map[string]bool{"sha2pc/encoding.go": true})
+	lints.ShortRead(p, run, []string{"sha2pc"}, nil)
 	run.Floor("read-sites", 7)
 }
 
@@ -53,6 +53,31 @@ func C06pack(p *load.Program, run *report.Run) {
 	run.Rule("or-pack-fresh", "a store S[e] |= v inside the OT code packs into storage that is zero at every position it may touch: assign-bit form, or a buffer allocated/cleared before the packing with every loop in between moving the position; a loop OR-ing into a caller's buffer without clearing is reported")
 	lints.OrPack(p, run, []string{"ot"}, nil)
 	run.Floor("or-pack-sites", 3)
+}
+
+// PackShifts: bit packing into machine words never shifts by the width or more (shared by the properties
+// whose values travel as packed bits: OT choice and result bits, GMW share vectors, sha2pc sign bits, the
+// garbler's result mask).
+func PackShifts(p *load.Program, run *report.Run) {
+	run.Rule("pack-shift-bounded", "in `X |= 1 << c`, `X &^= 1 << c`, `X = X | 1 << c` the count c is below the width of X by construction: e % K or e & (K-1) with K <= width, a constant, a variable assigned only such values, or the variable of a loop with a constant bound <= width")
+	lints.PackShift(p, run, []string{"ot", "gmw", "sha2pc", "circuit", "compiler/ssa", "vole", "bmr", "p2p"}, map[string]string{
+		"ot.Label.SetBit": "the bit index of a 128-bit label is the method's documented domain (0..127); it is split at 64 into the two words before the shift",
+	})
+	run.Floor("pack-shift-sites", 10)
+}
+
+// WordExact: the fixed-width arithmetic of the OT package does not depend on the platform's int size.
+func WordExact(p *load.Program, run *report.Run) {
+	run.Rule("no-platform-width-truncation", "in package ot (GF(2^128) products, label words, bit matrices) every conversion of an int64/uint64 value to int, uint or uintptr has an operand that fits in 31 bits by construction (constant, e & K, e % K, e >> k with k >= 33)")
+	lints.PlatformWidth(p, run, []string{"ot"}, nil)
+	// the portable siblings of the amd64 assembly are not in the native file set: the rule reads them from
+	// the arm64 configuration in every tier (they are what runs on the platforms the rule is about)
+	if q, err := p.OtherArch(); err != nil {
+		run.Undecided("no-platform-width-truncation", "GOARCH=arm64", "", err.Error())
+	} else if q != nil {
+		lints.PlatformWidth(q, run, []string{"ot"}, func(rel string) bool { return !p.HasFile(rel) })
+	}
+	run.Floor("wide-to-platform-conversions", 1)
 }
 
 // C18pack: the same rule for the bit/byte conversions of sha2pc.
@@ -136,7 +161,7 @@ func C18kept(p *load.Program, run *report.Run) { keptStateRule(p, run, []string{
 // C04rand: the random source of labels and offsets is read in full.
 func C04rand(p *load.Program, run *report.Run) {
 	run.Rule("short-read", "a Read on a caller-supplied io.Reader whose count is discarded must be io.ReadFull: a short read leaves the rest of a label (or of the offset R) zero")
-	lints.ShortRead(p, run, []string{"ot", "circuit"}, map[string]bool{"ot/label.go": true, "ot/co.go": true, "ot/co_helpers.go": true, "ot/cot.go": true, "ot/rot.go": true, "ot/iknp.go": true, "ot/rsa.go": true, "circuit/garble.go": true, "circuit/garbler.go": true, "circuit/stream_garble.go": true})
+	lints.ShortRead(p, run, []string{"ot", "circuit"}, nil)
 	run.Floor("read-sites", 1)
 }
 
@@ -188,7 +213,7 @@ func C13scan(p *load.Program, run *report.Run) {
 	run.Floor("scan-examples", 3)
 	run.Floor("descending-scans", 1)
 	run.Rule("write-window-equals-advance", "in circuit/ioarg.go, a SetBit(result, ofs+i, ...) in `for i := 0; i < B` (or a single SetBit at ofs) of a function returning `ofs + A` has B = A up to integer conversions")
-	lints.WriteWindow(p, run, []string{"circuit"}, map[string]bool{"circuit/ioarg.go": true})
+	lints.WriteWindow(p, run, []string{"circuit"}, nil)
 	run.Floor("packed-member-writes", 2)
 }
 
@@ -208,7 +233,7 @@ func C18widths(p *load.Program, run *report.Run) {
 	lints.Rounding(p, run, []string{"sha2pc"}, nil, map[string]string{
 		"sha2pc.decodeLabels/len(data) / labelSize": "len(data) is compared with the constant garblerInputLabelBytes (a multiple of the label size) at the top of the function",
 	})
-	lints.Rounding(p, run, []string{"ot"}, map[string]bool{"ot/co_helpers.go": true, "ot/co.go": true}, map[string]string{})
+	lints.Rounding(p, run, []string{"ot"}, nil, map[string]string{})
 	run.Floor("division-sites", 3)
 }
 
